@@ -35,13 +35,16 @@ def is_const(t):
 
 class Env:
 
-  def __init__(self, params, mod=None, parent=None):
+  def __init__(self, params, mod=None, parent=None, opaque=()):
     self.v = {}
     self.params = set(params)
     self.mod = mod
     self.parent = parent
+    self.opaque = frozenset(opaque) | (parent.opaque if parent is not None else frozenset())
 
   def get(self, name):
+    if name in self.opaque:
+      return ('f', name)
     e = self
     while e is not None:
       if name in e.v:
